@@ -270,6 +270,15 @@ def inferLoop (A R S : List ITy) : Res :=
       .ok (carried ++ s.map (fun t => some (scanTy t)))
   | _, _, _ => .err .typeErr
 
+/-- Opset modules whose `_Loop` has no override (v19, v21): ONNX's own inference only — a carried
+    output gets the element type and no shape. -/
+def inferLoopOnnx (A R S : List ITy) : Res :=
+  match allTyped A, allTyped R, allTyped S with
+  | some a, some r, some s =>
+    if !elemsAgree a r then .err .inference
+    else .ok (onnxCarried a ++ s.map (fun t => some (scanTy t)))
+  | _, _, _ => .err .typeErr
+
 /-- The routine as pinned (before the fix): a carried output simply takes the body's result type. -/
 def inferLoopPinned (A R S : List ITy) : Res :=
   match allTyped A, allTyped R, allTyped S with
